@@ -67,7 +67,7 @@ Section Names.
     induction l as [|a r IH]; cbn [app]; intros Hnd Hnin.
     - constructor; [intros [] | constructor].
     - inversion Hnd as [|x y Ha Hr]; subst x y. constructor.
-      + rewrite in_app_iff. cbn [In]. intros [H|[H|[]]]; [exact (Ha H)|]. apply Hnin. left. exact H.
+      + rewrite in_app_iff. cbn [In]. intros [H|[H|[]]]; [exact (Ha H)|]. apply Hnin. left. symmetry. exact H.
       + apply IH; [exact Hr|]. intros H. apply Hnin. right. exact H.
   Qed.
 
@@ -78,3 +78,548 @@ Section Names.
     - rewrite add_name_notin by exact Hnin. apply nodup_snoc; assumption.
   Qed.
 End Names.
+
+Section NamesMore.
+  Lemma fold_add_all_in (L K : list string) : (forall x, In x L -> In x K) -> fold_left SMS.add_name L K = K.
+  Proof.
+    revert K. induction L as [|k L IH]; intros K H; cbn [fold_left]; [reflexivity|].
+    rewrite add_name_in by (apply H; left; reflexivity).
+    apply IH. intros x Hx. apply H. right. exact Hx.
+  Qed.
+
+  Lemma fold_add_snoc (L K : list string) (k : string) :
+    fold_left SMS.add_name (L ++ [k]) K = SMS.add_name (fold_left SMS.add_name L K) k.
+  Proof. rewrite fold_left_app. reflexivity. Qed.
+
+  (* feeding the de-duplicated list instead of the list itself gives the same names *)
+  Lemma fold_add_fold (L K : list string) :
+    fold_left SMS.add_name (fold_left SMS.add_name L []) K = fold_left SMS.add_name L K.
+  Proof.
+    induction L as [|k L IH] using rev_ind; [reflexivity|].
+    rewrite !fold_add_snoc.
+    destruct (in_dec string_dec k (fold_left SMS.add_name L [])) as [Hin|Hnin].
+    - rewrite (add_name_in _ _ Hin), IH. symmetry. apply add_name_in.
+      apply in_fold_add. right. apply in_fold_add in Hin. destruct Hin as [[]|Hin]. exact Hin.
+    - rewrite (add_name_notin _ _ Hnin), fold_add_snoc, IH. reflexivity.
+  Qed.
+
+  Lemma nodup_fold_add (L K : list string) : NoDup K -> NoDup (fold_left SMS.add_name L K).
+  Proof.
+    revert K. induction L as [|k L IH]; intros K H; cbn [fold_left]; [exact H|].
+    apply IH. apply nodup_add_name. exact H.
+  Qed.
+
+  (* the configured names keep their place: later declarations only append *)
+  Lemma fold_add_prefix (L K : list string) : exists ext, fold_left SMS.add_name L K = K ++ ext.
+  Proof.
+    revert K. induction L as [|k L IH]; intros K; cbn [fold_left].
+    - exists []. rewrite app_nil_r. reflexivity.
+    - destruct (IH (SMS.add_name K k)) as [ext He]. rewrite He.
+      destruct (in_dec string_dec k K) as [Hin|Hnin].
+      + rewrite add_name_in by exact Hin. exists ext. reflexivity.
+      + rewrite add_name_notin by exact Hnin. exists (k :: ext). rewrite <- app_assoc. reflexivity.
+  Qed.
+End NamesMore.
+
+Section Assoc.
+  Context {A : Type}.
+  Local Notation V := (feature A).
+  Implicit Types (s l : list (string * V)) (k : string) (v : V).
+  Local Notation kspec := String.eqb_spec.
+
+  Lemma keys_ins s k v : map fst (sins s k v) = SMS.add_name (map fst s) k.
+  Proof.
+    induction s as [|[k0 v0] r IH]; cbn [CM.s_ins map fst]; [reflexivity|].
+    destruct (String.eqb_spec k0 k) as [Heq|Hne]; cbn [map fst].
+    - subst k0. symmetry. apply add_name_in. left. reflexivity.
+    - rewrite IH. unfold SMS.add_name. cbn [existsb].
+      rewrite (seqb_sym k k0). destruct (String.eqb_spec k0 k) as [Heq|_]; [contradiction|].
+      cbn [orb]. destruct (existsb (String.eqb k) (map fst r)); reflexivity.
+  Qed.
+
+  Lemma keys_ins_all l s : map fst (ins_all l s) = fold_left SMS.add_name (map fst l) (map fst s).
+  Proof.
+    revert s. induction l as [|[k v] l IH]; intros s; cbn [ins_all fold_left map fst snd]; [reflexivity|].
+    change (map fst (ins_all l (sins s k v)) = fold_left SMS.add_name (map fst l) (SMS.add_name (map fst s) k)).
+    rewrite IH, keys_ins. reflexivity.
+  Qed.
+
+  Lemma nodup_ins_all l s : NoDup (map fst s) -> NoDup (map fst (ins_all l s)).
+  Proof. intros H. rewrite keys_ins_all. apply nodup_fold_add. exact H. Qed.
+
+  Lemma lookup_sget s k : SMS.lookup s k = sget s k.
+  Proof. induction s as [|[k0 v0] r IH]; cbn [SMS.lookup CM.s_get]; [reflexivity|]. rewrite IH. reflexivity. Qed.
+
+  Lemma position_sidx s k : SMS.position (map fst s) k = sidx s k.
+  Proof.
+    induction s as [|[k0 v0] r IH]; cbn [SMS.position CM.s_index map fst]; [reflexivity|]. rewrite IH. reflexivity.
+  Qed.
+
+  Lemma sget_ins s k v k' : sget (sins s k v) k' = if String.eqb k k' then Some v else sget s k'.
+  Proof.
+    destruct (String.eqb_spec k k') as [Heq|Hne].
+    - subst k'. apply (s_get_ins_same String.eqb kspec).
+    - apply (s_get_ins_other String.eqb kspec). congruence.
+  Qed.
+
+  (* lookup after a run of insertions: the last definition of the run, else what was there *)
+  Lemma sget_ins_all l s k :
+    sget (ins_all l s) k = match SMS.last_def l k with Some v => Some v | None => sget s k end.
+  Proof.
+    revert s. induction l as [|[k0 v0] l IH]; intros s; cbn [ins_all fold_left SMS.last_def fst snd]; [reflexivity|].
+    change (sget (ins_all l (sins s k0 v0)) k = match match SMS.last_def l k with Some g => Some g | None => if String.eqb k0 k then Some v0 else None end with Some v => Some v | None => sget s k end).
+    rewrite IH, sget_ins. destruct (SMS.last_def l k); [reflexivity|].
+    destruct (String.eqb k0 k); reflexivity.
+  Qed.
+
+  Lemma last_def_none l k : SMS.last_def l k = None <-> ~ In k (map fst l).
+  Proof.
+    induction l as [|[k0 v0] r IH]; cbn [SMS.last_def map fst In]; [tauto|].
+    destruct (SMS.last_def r k) as [g|].
+    - split; [discriminate|]. intros H. exfalso. apply H. right.
+      destruct (in_dec string_dec k (map fst r)) as [Hin|Hnin]; [exact Hin|].
+      apply IH in Hnin. discriminate.
+    - destruct (String.eqb_spec k0 k) as [Heq|Hne].
+      + split; [discriminate|]. intros H. exfalso. apply H. left. exact Heq.
+      + split; [|reflexivity]. intros _ [H|H]; [exact (Hne H)|]. apply (proj1 IH eq_refl H).
+  Qed.
+
+  Lemma sget_none_iff s k : sget s k = None <-> ~ In k (map fst s).
+  Proof. apply (s_get_none String.eqb kspec). Qed.
+
+  (* with distinct names the last definition is the only one *)
+  Lemma last_def_nodup l k : NoDup (map fst l) -> SMS.last_def l k = sget l k.
+  Proof.
+    induction l as [|[k0 v0] r IH]; cbn [SMS.last_def CM.s_get map fst]; intros Hnd; [reflexivity|].
+    inversion Hnd as [|x y Hnin Hnd']; subst x y. rewrite (IH Hnd').
+    destruct (String.eqb_spec k0 k) as [Heq|Hne].
+    - subst k0. apply sget_none_iff in Hnin. rewrite Hnin. reflexivity.
+    - destruct (sget r k); reflexivity.
+  Qed.
+
+  Lemma ins_all_app l1 l2 s : ins_all (l1 ++ l2) s = ins_all l2 (ins_all l1 s).
+  Proof. unfold ins_all. apply fold_left_app. Qed.
+
+  (* inserting a duplicate-free list into the empty list gives the list back *)
+  Lemma ins_all_fresh l acc : NoDup (map fst (acc ++ l)) -> ins_all l acc = acc ++ l.
+  Proof.
+    revert acc. induction l as [|[k v] l IH]; intros acc Hnd; cbn [ins_all fold_left fst snd].
+    - rewrite app_nil_r. reflexivity.
+    - change (ins_all l (sins acc k v) = acc ++ (k, v) :: l).
+      rewrite (s_ins_app String.eqb).
+      + rewrite IH; rewrite <- app_assoc; [reflexivity | exact Hnd].
+      + apply sget_none_iff. rewrite map_app in Hnd. cbn [map fst] in Hnd.
+        apply NoDup_remove_2 in Hnd. intros H. apply Hnd. apply in_or_app. left. exact H.
+  Qed.
+
+  Lemma ins_all_id s : NoDup (map fst s) -> ins_all s [] = s.
+  Proof. intros H. apply (ins_all_fresh s []). exact H. Qed.
+
+  (* two association lists with the same duplicate-free key list and the same lookups are equal *)
+  Lemma assoc_eq s1 s2 :
+    map fst s1 = map fst s2 -> NoDup (map fst s1) ->
+    (forall k, In k (map fst s1) -> sget s1 k = sget s2 k) -> s1 = s2.
+  Proof.
+    revert s2. induction s1 as [|[k1 v1] r1 IH]; intros [|[k2 v2] r2]; cbn [map fst]; intros Hk Hnd Hg;
+      try discriminate; [reflexivity|].
+    injection Hk as Hk1 Hk2. subst k2. inversion Hnd as [|x y Hnin Hnd']; subst x y.
+    pose proof (Hg k1 (or_introl eq_refl)) as H1. cbn [CM.s_get] in H1. rewrite seqb_refl in H1.
+    injection H1 as H1. subst v2. f_equal. apply IH; [exact Hk2 | exact Hnd'|].
+    intros k Hin. pose proof (Hg k (or_intror Hin)) as H2. cbn [CM.s_get] in H2.
+    destruct (String.eqb_spec k1 k) as [Heq|Hne]; [subst k; contradiction | exact H2].
+  Qed.
+
+  (* ... and such a list is determined by its keys and its lookup function *)
+  Lemma assoc_flat s (g : string -> option V) :
+    NoDup (map fst s) -> (forall k, In k (map fst s) -> sget s k = g k) ->
+    s = flat_map (fun k => match g k with Some f => [(k, f)] | None => [] end) (map fst s).
+  Proof.
+    induction s as [|[k0 v0] r IH]; cbn [map fst flat_map]; intros Hnd Hg; [reflexivity|].
+    inversion Hnd as [|x y Hnin Hnd']; subst x y.
+    pose proof (Hg k0 (or_introl eq_refl)) as H0. cbn [CM.s_get] in H0. rewrite seqb_refl in H0.
+    rewrite <- H0. cbn [app]. f_equal. apply IH; [exact Hnd'|].
+    intros k Hin. pose proof (Hg k (or_intror Hin)) as H2. cbn [CM.s_get] in H2.
+    destruct (String.eqb_spec k0 k) as [Heq|Hne]; [subst k; contradiction | exact H2].
+  Qed.
+
+  Lemma keys_flat (names : list string) (g : string -> option V) :
+    (forall k, In k names -> g k <> None) ->
+    map fst (flat_map (fun k => match g k with Some f => [(k, f)] | None => [] end) names) = names.
+  Proof.
+    induction names as [|k r IH]; cbn [flat_map map]; intros H; [reflexivity|].
+    rewrite map_app, IH by (intros x Hx; apply H; right; exact Hx).
+    destruct (g k) eqn:E; [reflexivity|]. exfalso. apply (H k); [left; reflexivity | exact E].
+  Qed.
+
+  Lemma sget_flat (names : list string) (g : string -> option V) k :
+    In k names -> sget (flat_map (fun k => match g k with Some f => [(k, f)] | None => [] end) names) k = g k.
+  Proof.
+    induction names as [|k0 r IH]; cbn [flat_map In]; [tauto|].
+    intros Hin. destruct (string_dec k0 k) as [Heq|Hne].
+    - subst k0. destruct (g k) eqn:E; cbn [app CM.s_get].
+      + rewrite seqb_refl. reflexivity.
+      + (* not defined here: k cannot be found later either *)
+        clear IH Hin. induction r as [|k1 r IHr]; cbn [flat_map]; [reflexivity|].
+        destruct (g k1) eqn:E1; cbn [app CM.s_get]; [|exact IHr].
+        destruct (String.eqb_spec k1 k) as [Heq|_]; [subst k1; congruence | exact IHr].
+    - destruct Hin as [Hin|Hin]; [contradiction|].
+      destruct (g k0); cbn [app CM.s_get]; [|exact (IH Hin)].
+      destruct (String.eqb_spec k0 k) as [Heq|_]; [contradiction | exact (IH Hin)].
+  Qed.
+End Assoc.
+
+(* ------------------------------------------------------------------------------------------ B *)
+Section Collect.
+  Context {A : Type}.
+  Local Notation entries := (list (string * feature A)).
+  Implicit Types (l u D acc : entries) (mf : hm A) (k : string).
+
+  Lemma hm_collect_eq D : hm_collect D = ins_all D [].
+  Proof. reflexivity. Qed.
+
+  (* the HashMap collected from the declarations answers with the last definition *)
+  Lemma hm_get_collect D k : hm_get (hm_collect D) k = SMS.last_def D k.
+  Proof.
+    unfold hm_get. rewrite hm_collect_eq, sget_ins_all. destruct (SMS.last_def D k); reflexivity.
+  Qed.
+
+  Lemma forallb_names acc k :
+    forallb (fun nf : string * feature A => negb (String.eqb (fst nf) k)) acc = negb (existsb (String.eqb k) (map fst acc)).
+  Proof.
+    induction acc as [|[k0 f0] r IH]; cbn [forallb existsb map fst]; [reflexivity|].
+    rewrite IH, negb_orb, (seqb_sym k0 k). reflexivity.
+  Qed.
+
+  Lemma added_step_spec mf acc (kv : string * feature A) :
+    added_step mf acc kv
+    = if existsb (String.eqb (fst kv)) (map fst acc) then acc
+      else match hm_get mf (fst kv) with Some f => acc ++ [(fst kv, f)] | None => acc end.
+  Proof. unfold added_step. rewrite forallb_names. destruct (existsb _ _); reflexivity. Qed.
+
+  (* the `added_features` loop: names in order of first declaration, values from the HashMap *)
+  Lemma added_loop mf l acc :
+    NoDup (map fst acc) ->
+    (forall k f, In (k, f) acc -> hm_get mf k = Some f) ->
+    (forall kv, In kv l -> hm_get mf (fst kv) <> None) ->
+    let R := fold_left (added_step mf) l acc in
+    map fst R = fold_left SMS.add_name (map fst l) (map fst acc)
+    /\ NoDup (map fst R) /\ (forall k f, In (k, f) R -> hm_get mf k = Some f).
+  Proof.
+    revert acc. induction l as [|kv l IH]; intros acc Hnd Hval Hdef; cbn [fold_left map].
+    - repeat split; assumption.
+    - assert (Hdef' : forall kv0, In kv0 l -> hm_get mf (fst kv0) <> None)
+        by (intros kv0 H0; apply Hdef; right; exact H0).
+      rewrite added_step_spec.
+      destruct (existsb (String.eqb (fst kv)) (map fst acc)) eqn:E.
+      + rewrite add_name_in by (apply existsb_eqb_in; exact E). apply IH; assumption.
+      + assert (Hnin : ~ In (fst kv) (map fst acc)).
+        { intros H. apply existsb_eqb_in in H. congruence. }
+        rewrite add_name_notin by exact Hnin.
+        destruct (hm_get mf (fst kv)) as [f|] eqn:Eg; [|exfalso; apply (Hdef kv); [left; reflexivity | exact Eg]].
+        replace (map fst acc ++ [fst kv]) with (map fst (acc ++ [(fst kv, f)]))
+          by (rewrite map_app; reflexivity).
+        apply IH.
+        * rewrite map_app. cbn [map fst]. apply nodup_snoc; assumption.
+        * intros k0 f0 Hin. apply in_app_or in Hin. destruct Hin as [Hin|[Hin|[]]]; [exact (Hval _ _ Hin)|].
+          injection Hin as H1 H2. subst k0 f0. exact Eg.
+        * exact Hdef'.
+  Qed.
+
+  Lemma sget_in_keys (s : entries) k : In k (map fst s) -> exists f, sget s k = Some f /\ In (k, f) s.
+  Proof.
+    intros Hin. destruct (sget s k) as [f|] eqn:E.
+    - exists f. split; [reflexivity|]. exact (s_get_some_key String.eqb String.eqb_spec s k f E).
+    - apply sget_none_iff in E. contradiction.
+  Qed.
+
+  Theorem added_is_collect D : fold_left (added_step (hm_collect D)) D [] = hm_collect D.
+  Proof.
+    destruct (added_loop (hm_collect D) D []) as (Hk & Hnd & Hv).
+    - constructor.
+    - intros k f [].
+    - intros kv Hin. rewrite hm_get_collect. intros Hn. apply last_def_none in Hn. apply Hn.
+      apply in_map. exact Hin.
+    - cbn [map] in Hk. apply assoc_eq.
+      + rewrite Hk, hm_collect_eq, keys_ins_all. reflexivity.
+      + exact Hnd.
+      + intros k Hin. destruct (sget_in_keys _ k Hin) as [f [Hg Hf]]. rewrite Hg. symmetry. exact (Hv k f Hf).
+  Qed.
+
+  Lemma hm_collect_nodup D : NoDup (map fst (hm_collect D)).
+  Proof. rewrite hm_collect_eq. apply nodup_ins_all. constructor. Qed.
+
+  Lemma hm_collect_keys D : map fst (hm_collect D) = fold_left SMS.add_name (map fst D) [].
+  Proof. rewrite hm_collect_eq. apply keys_ins_all. Qed.
+
+  (* what the models declare, as the specification writes it *)
+  Lemma hm_collect_model_defs (tm am : entries) : hm_collect (tm ++ am) = SMS.model_defs tm am.
+  Proof.
+    unfold SMS.model_defs, SMS.model_names. rewrite <- hm_collect_keys.
+    apply assoc_flat; [apply hm_collect_nodup|].
+    intros k _. apply hm_get_collect.
+  Qed.
+
+  (* ---- validation of the query's entries ---- *)
+  Definition valid_b mf (e : string * feature A) : bool :=
+    match hm_get mf (fst e) with
+    | Some m => String.eqb (feature_type m) (feature_type (snd e))
+    | None => false
+    end.
+
+  Lemma validate_user_spec mf e :
+    validate_user mf e = if valid_b mf e then Ok e
+                         else Err (match hm_get mf (fst e) with None => err_unknown | Some _ => err_type end).
+  Proof.
+    unfold validate_user, valid_b. destruct (hm_get mf (fst e)) as [m|]; [|reflexivity].
+    destruct (String.eqb (feature_type m) (feature_type (snd e))); reflexivity.
+  Qed.
+
+  Lemma collect_validate mf l :
+    match collect_res (map (validate_user mf) l) with
+    | Ok l' => l' = l /\ forallb (valid_b mf) l = true
+    | Err c => exists e, In e l /\ valid_b mf e = false
+                         /\ c = match hm_get mf (fst e) with None => err_unknown | Some _ => err_type end
+    | _ => False
+    end.
+  Proof.
+    induction l as [|e l IH]; cbn [map collect_res forallb]; [split; reflexivity|].
+    rewrite validate_user_spec. destruct (valid_b mf e) eqn:Ev; cbn [bind].
+    - destruct (collect_res (map (validate_user mf) l)) as [l'|c| |]; cbn [bind]; try exact IH.
+      + destruct IH as [-> Hall]. split; [reflexivity | exact Hall].
+      + destruct IH as [e' (Hin & Hv & Hc)]. exists e'. repeat split; [right; exact Hin | exact Hv | exact Hc].
+    - exists e. repeat split; [left; reflexivity | exact Ev].
+  Qed.
+End Collect.
+
+(* ------------------------------------------------------------------------------------------ C *)
+Section Extend.
+  Context {A : Type}.
+  Local Notation entries := (list (string * feature A)).
+  Implicit Types (es l u s : entries) (c : smodel A) (k : string).
+  Local Notation kspec := String.eqb_spec.
+
+  Definition conflict (o : option (feature A)) (f : feature A) : bool :=
+    match o with Some old => negb (feature_eqb old f) | None => false end.
+  (* some entry of the run replaces a feature of another kind *)
+  Fixpoint over_flag s es : bool :=
+    match es with
+    | [] => false
+    | e :: r => conflict (sget s (fst e)) (snd e) || over_flag (sins s (fst e) (snd e)) r
+    end.
+
+  Lemma extend_step_spec c s b (e : string * feature A) :
+    SAbs c s ->
+    exists c', extend_step (c, b) e = (c', b || conflict (sget s (fst e)) (snd e))
+               /\ SAbs c' (sins s (fst e) (snd e)).
+  Proof.
+    intros Habs. destruct (abs_insert String.eqb kspec c s (fst e) (snd e) Habs) as [Habs' Hold].
+    unfold extend_step. cbn [fst snd].
+    destruct (CM.insert String.eqb c (fst e) (snd e)) as [c' old]. cbn [fst snd] in Habs', Hold. subst old.
+    exists c'. split; [reflexivity | exact Habs'].
+  Qed.
+
+  Lemma extend_fold es c s b :
+    SAbs c s ->
+    SAbs (fst (fold_left extend_step es (c, b))) (ins_all es s)
+    /\ snd (fold_left extend_step es (c, b)) = b || over_flag s es.
+  Proof.
+    revert c s b. induction es as [|e es IH]; intros c s b Habs; cbn [fold_left ins_all over_flag].
+    - split; [exact Habs | rewrite orb_false_r; reflexivity].
+    - destruct (extend_step_spec c s b e Habs) as [c' [He Ha]]. rewrite He.
+      destruct (IH c' _ (b || conflict (sget s (fst e)) (snd e)) Ha) as [H1 H2].
+      split; [exact H1|]. rewrite H2, orb_assoc. reflexivity.
+  Qed.
+
+  Lemma existsb_ext_in {X} (f g : X -> bool) (l : list X) :
+    (forall x, In x l -> f x = g x) -> existsb f l = existsb g l.
+  Proof.
+    induction l as [|x r IH]; cbn [existsb]; intros H; [reflexivity|].
+    rewrite (H x (or_introl eq_refl)), IH; [reflexivity|]. intros y Hy. apply H. right. exact Hy.
+  Qed.
+
+  Lemma over_flag_nodup s es :
+    NoDup (map fst es) -> over_flag s es = existsb (fun e => conflict (sget s (fst e)) (snd e)) es.
+  Proof.
+    revert s. induction es as [|e es IH]; intros s Hnd; cbn [over_flag existsb]; [reflexivity|].
+    cbn [map] in Hnd. inversion Hnd as [|x y Hnin Hnd']; subst x y.
+    rewrite (IH _ Hnd'). f_equal. apply existsb_ext_in. intros e' Hin.
+    rewrite sget_ins. destruct (kspec (fst e) (fst e')) as [Heq|_]; [|reflexivity].
+    exfalso. apply Hnin. rewrite Heq. apply in_map. exact Hin.
+  Qed.
+
+  Lemma over_flag_app s a b : over_flag s (a ++ b) = over_flag s a || over_flag (ins_all a s) b.
+  Proof.
+    revert s. induction a as [|e a IH]; intros s; cbn [app over_flag ins_all fold_left]; [reflexivity|].
+    rewrite IH, orb_assoc. reflexivity.
+  Qed.
+
+  (* StateModel::extend through the container: every entry is inserted; an error iff some entry replaced a
+     feature of another kind *)
+  Theorem extend_refines c s es :
+    SAbs c s ->
+    match extend c es with
+    | Ok c' => SAbs c' (ins_all es s) /\ over_flag s es = false
+    | Err cl => cl = err_build /\ over_flag s es = true
+    | _ => False
+    end.
+  Proof.
+    intros Habs. unfold extend.
+    assert (H0 : SAbs (CM.from_iter String.eqb (CM.iter c)) s).
+    { rewrite (abs_iter c s Habs).
+      assert (H : SAbs (CM.from_iter String.eqb s) (ins_all s [])) by exact (abs_from_iter String.eqb kspec s).
+      rewrite (ins_all_id s (abs_nodup c s Habs)) in H. exact H. }
+    match goal with |- context [fold_left extend_step es ?i] => set (r := fold_left extend_step es i) end.
+    assert (H12 : SAbs (fst r) (ins_all es s) /\ snd r = false || over_flag s es)
+      by exact (extend_fold es _ s false H0).
+    destruct r as [m fl]. cbn [fst snd orb] in H12. destruct H12 as [H1 H2]. subst fl.
+    destruct (over_flag s es); [split; reflexivity | split; [exact H1 | reflexivity]].
+  Qed.
+End Extend.
+
+(* ------------------------------------------------------------------------------------------ D *)
+Section Build.
+  Context {A : Type}.
+  Local Notation entries := (list (string * feature A)).
+  Implicit Types (cfg : smodel A) (tm am u : entries) (user : user_q A) (k : string).
+
+  (* the query holds invalid overrides of both kinds: which one is reported depends on HashMap order *)
+  Definition mixed_invalid tm am u : bool :=
+    existsb (SMS.unknown_override tm am) u && existsb (SMS.mistyped_override tm am) u.
+
+  Definition refines tm am u (r : res (smodel A)) (q : res entries) : Prop :=
+    match r, q with
+    | Ok sm, Ok s => SAbs sm s
+    | Err c, Err c' => c = c' \/ mixed_invalid tm am u = true
+    | _, _ => False
+    end.
+
+  Lemma valid_b_spec tm am (e : string * feature A) :
+    valid_b (hm_collect (tm ++ am)) e = negb (SMS.unknown_override tm am e) && negb (SMS.mistyped_override tm am e).
+  Proof.
+    unfold valid_b, SMS.unknown_override, SMS.mistyped_override. rewrite hm_get_collect.
+    destruct (SMS.last_def (tm ++ am) (fst e)) as [m|]; cbn [negb andb]; [|reflexivity].
+    rewrite negb_involutive. reflexivity.
+  Qed.
+
+  Lemma all_valid_no_invalid tm am u :
+    forallb (valid_b (hm_collect (tm ++ am))) u = true ->
+    existsb (SMS.unknown_override tm am) u = false /\ existsb (SMS.mistyped_override tm am) u = false.
+  Proof.
+    induction u as [|e u IH]; cbn [forallb existsb]; [split; reflexivity|].
+    rewrite andb_true_iff, valid_b_spec, andb_true_iff, !negb_true_iff. intros [[H1 H2] H3].
+    destruct (IH H3) as [H4 H5]. rewrite H1, H2, H4, H5. split; reflexivity.
+  Qed.
+
+  Lemma existsb_in_true {X} (f : X -> bool) (l : list X) (x : X) : In x l -> f x = true -> existsb f l = true.
+  Proof. intros Hin Hf. apply existsb_exists. exists x. split; assumption. Qed.
+
+  Lemma final_names_eq (s0 : entries) tm am u :
+    (forall e, In e u -> In (fst e) (map fst (tm ++ am))) ->
+    fold_left SMS.add_name (map fst (hm_collect (tm ++ am) ++ u)) (map fst s0) = SMS.final_names s0 tm am.
+  Proof.
+    intros Hu. rewrite map_app, fold_left_app, hm_collect_keys, fold_add_fold.
+    apply fold_add_all_in. intros x Hx. apply in_fold_add. right.
+    apply in_map_iff in Hx. destruct Hx as [e [<- He]]. apply Hu. exact He.
+  Qed.
+
+  Lemma final_feature_eq (s0 : entries) tm am u k :
+    NoDup (map fst u) ->
+    sget (ins_all (hm_collect (tm ++ am) ++ u) s0) k = SMS.final_feature s0 tm am u k.
+  Proof.
+    intros Hnd. rewrite ins_all_app, !sget_ins_all. unfold SMS.final_feature.
+    rewrite (last_def_nodup u k Hnd), (last_def_nodup _ k (hm_collect_nodup (tm ++ am))), !lookup_sget.
+    change (sget (hm_collect (tm ++ am)) k) with (hm_get (hm_collect (tm ++ am)) k). rewrite hm_get_collect.
+    reflexivity.
+  Qed.
+
+  Definition spec_tail (s0 : entries) tm am u : res entries :=
+    if existsb (SMS.replaces_other_kind SMS.lookup s0) (SMS.model_defs tm am)
+       || existsb (SMS.replaces_other_kind SMS.last_def (tm ++ am)) u then Err err_build
+    else Ok (flat_map (fun k => match SMS.final_feature s0 tm am u k with Some f => [(k, f)] | None => [] end)
+                      (SMS.final_names s0 tm am)).
+
+  (* all overrides valid: extend of the model features followed by the overrides *)
+  Lemma build_valid cfg (s0 : entries) tm am u :
+    SAbs cfg s0 -> NoDup (map fst u) -> forallb (valid_b (hm_collect (tm ++ am))) u = true ->
+    match extend cfg (hm_collect (tm ++ am) ++ u), spec_tail s0 tm am u with
+    | Ok sm, Ok s => SAbs sm s
+    | Err c, Err c' => c = c'
+    | _, _ => False
+    end.
+  Proof.
+    intros Habs Hndu Hall.
+    pose proof (extend_refines cfg s0 (hm_collect (tm ++ am) ++ u) Habs) as He.
+    unfold spec_tail.
+    rewrite over_flag_app, (over_flag_nodup s0 _ (hm_collect_nodup (tm ++ am))), (over_flag_nodup _ u Hndu) in He.
+    rewrite <- hm_collect_model_defs.
+    assert (Hfl1 : existsb (SMS.replaces_other_kind SMS.lookup s0) (hm_collect (tm ++ am))
+                  = existsb (fun e => conflict (sget s0 (fst e)) (snd e)) (hm_collect (tm ++ am))).
+    { apply existsb_ext_in. intros e _. unfold SMS.replaces_other_kind, conflict. rewrite lookup_sget. reflexivity. }
+    assert (Hkn : forall e, In e u -> exists m, SMS.last_def (tm ++ am) (fst e) = Some m).
+    { intros e He'. rewrite forallb_forall in Hall. specialize (Hall e He'). unfold valid_b in Hall.
+      rewrite hm_get_collect in Hall.
+      destruct (SMS.last_def (tm ++ am) (fst e)) as [m|]; [exists m; reflexivity | discriminate]. }
+    assert (Hfl2 : existsb (SMS.replaces_other_kind SMS.last_def (tm ++ am)) u
+                  = existsb (fun e => conflict (sget (ins_all (hm_collect (tm ++ am)) s0) (fst e)) (snd e)) u).
+    { apply existsb_ext_in. intros e He'. unfold SMS.replaces_other_kind, conflict.
+      rewrite sget_ins_all, (last_def_nodup _ _ (hm_collect_nodup (tm ++ am))).
+      change (sget (hm_collect (tm ++ am)) (fst e)) with (hm_get (hm_collect (tm ++ am)) (fst e)).
+      rewrite hm_get_collect. destruct (Hkn e He') as [m ->]. reflexivity. }
+    rewrite Hfl1, Hfl2.
+    destruct (extend cfg (hm_collect (tm ++ am) ++ u)) as [c'|cl| |]; try contradiction.
+    - destruct He as [Ha Hf]. rewrite Hf.
+      pose proof (abs_nodup c' _ Ha) as Hnd'.
+      rewrite (assoc_flat _ (SMS.final_feature s0 tm am u) Hnd') in Ha.
+      + rewrite keys_ins_all, final_names_eq in Ha; [exact Ha|].
+        intros e He'. destruct (Hkn e He') as [m Hm].
+        destruct (in_dec string_dec (fst e) (map fst (tm ++ am))) as [Hi|Hni]; [exact Hi|].
+        apply last_def_none in Hni. congruence.
+      + intros k _. apply final_feature_eq. exact Hndu.
+    - destruct He as [-> Hf]. rewrite Hf. reflexivity.
+  Qed.
+
+  (* SearchApp::build_search_instance (configured model extended by collect_features) refines the
+     specification: same verdict, and on success the container represents exactly the specified list *)
+  Theorem build_refines cfg (s0 : entries) tm am user :
+    SAbs cfg s0 -> NoDup (map fst (user_entries user)) ->
+    refines tm am (user_entries user) (build_search_instance cfg tm am user) (SMS.build s0 tm am user).
+  Proof.
+    intros Habs Hndu. unfold build_search_instance, collect_features.
+    destruct user as [| |u0]; [| left; reflexivity |].
+    - (* no state_features *)
+      cbn [bind map collect_res user_entries]. rewrite added_is_collect.
+      pose proof (build_valid cfg s0 tm am [] Habs (NoDup_nil _) eq_refl) as H.
+      unfold SMS.build, refines. cbn [user_entries existsb]. unfold spec_tail in H. cbn [existsb] in H.
+      destruct (extend cfg (hm_collect (tm ++ am) ++ [])) as [c'|cl| |]; try contradiction;
+        destruct (existsb (SMS.replaces_other_kind SMS.lookup s0) (SMS.model_defs tm am) || false);
+        try contradiction; [exact H | left; exact H].
+    - cbn [bind user_entries] in *.
+      pose proof (collect_validate (hm_collect (tm ++ am)) u0) as Hv.
+      destruct (collect_res (map (validate_user (hm_collect (tm ++ am))) u0)) as [l'|cl| |]; try contradiction.
+      + (* every override valid *)
+        destruct Hv as [-> Hall]. cbn [bind]. rewrite added_is_collect.
+        destruct (all_valid_no_invalid tm am u0 Hall) as [Hunk Hmis].
+        pose proof (build_valid cfg s0 tm am u0 Habs Hndu Hall) as H.
+        unfold SMS.build, refines. cbn [user_entries]. rewrite Hunk, Hmis. unfold spec_tail in H.
+        destruct (extend cfg (hm_collect (tm ++ am) ++ u0)) as [c'|cl| |]; try contradiction;
+          destruct (existsb (SMS.replaces_other_kind SMS.lookup s0) (SMS.model_defs tm am)
+                    || existsb (SMS.replaces_other_kind SMS.last_def (tm ++ am)) u0);
+          try contradiction; [exact H | left; exact H].
+      + (* an invalid override *)
+        destruct Hv as [e (Hin & Hinv & ->)]. cbn [bind]. unfold SMS.build, refines. cbn [user_entries].
+        rewrite valid_b_spec in Hinv. rewrite hm_get_collect.
+        unfold mixed_invalid.
+        destruct (existsb (SMS.unknown_override tm am) u0) eqn:Eu.
+        * destruct (SMS.last_def (tm ++ am) (fst e)) as [m|] eqn:El; [|left; reflexivity].
+          right. cbn [andb]. apply (existsb_in_true _ _ e Hin).
+          unfold SMS.unknown_override in Hinv. rewrite El in Hinv. cbn [negb andb] in Hinv.
+          apply negb_false_iff in Hinv. exact Hinv.
+        * assert (Hue : SMS.unknown_override tm am e = false).
+          { destruct (SMS.unknown_override tm am e) eqn:E; [|reflexivity].
+            rewrite (existsb_in_true _ _ e Hin E) in Eu. discriminate. }
+          rewrite Hue in Hinv. cbn [negb andb] in Hinv. apply negb_false_iff in Hinv.
+          rewrite (existsb_in_true _ _ e Hin Hinv).
+          unfold SMS.unknown_override in Hue.
+          destruct (SMS.last_def (tm ++ am) (fst e)); [left; reflexivity | discriminate].
+  Qed.
+End Build.
